@@ -57,6 +57,10 @@ def main():
     props = args or list(PROPS)
     try:
         base = {p: {k.split(" :: ")[0] for k in ks} for p, ks in all_keys("/repo", props).items()}
+        for p_, ks_ in base.items():
+            for k_ in ks_:
+                if k_.startswith("CHECKER-CRASHED"):
+                    print(p_, "BASE-CRASHED", k_[:300])
         got = all_keys(wt, props)
         rc = 0
         for p in props:
